@@ -87,7 +87,7 @@ func fail(rt *rapid.T, dumpTo string, sig, f string, a ...any) {
 
 // ---------------------------------------------------------------- C17
 
-var fleetSizes = []int64{1, 2, 19, 20, 21, 39, 40, 41, 59, 60, 61, 100, 999, 1000, 1001}
+var fleetSizes = []int64{1, 2, 19, 20, 21, 39, 40, 41, 59, 60, 61, 99, 100, 101, 150, 199, 200, 201, 250, 999, 1000, 1001}
 
 func TestC17(t *testing.T) {
 	col := newCollector(t, "C17", "direct: IncreaseSize(d) on the real AWS provider over a stateful simulated AWS that records every argument; non-trivial = d on a bounds boundary, a fleet size that is not a multiple of 20, >= 2 fleet entries or a stale cache; distinct by (mode, d class, size mod 20, batches, split, lifecycle, overrides, stale)")
@@ -134,7 +134,11 @@ func TestC17(t *testing.T) {
 			}
 			c.a.Fleet = sim.FleetPlan{Split: rapid.IntRange(1, 4).Draw(rt, "split"), PageSize: rapid.SampledFrom([]int{1, 7, 50, 1000}).Draw(rt, "page"),
 				ReadyAfter: rapid.SampledFrom([]time.Duration{0, time.Second, 3 * time.Second, 5 * time.Second}).Draw(rt, "readyAfter"), // + stagger (<= 4 s) stays below the shortest time-out (10 s)
-				WithErrors: rapid.Bool().Draw(rt, "withErrors"), StaggerMod: rapid.SampledFrom([]int{0, 2, 3, 5}).Draw(rt, "stagger")}
+				WithErrors: rapid.Bool().Draw(rt, "withErrors"), StaggerMod: rapid.SampledFrom([]int{0, 2, 3, 5}).Draw(rt, "stagger"),
+				ErrCode: rapid.SampledFrom(sim.FleetErrorCodes).Draw(rt, "errCode"), LateTail: rapid.SampledFrom([]int{0, 0, 1, 5, 50, 99}).Draw(rt, "lateTail")}
+			if c.a.Fleet.LateTail > 0 && c.a.Fleet.ReadyAfter > 3*time.Second {
+				c.a.Fleet.ReadyAfter = 3 * time.Second // ready-after + stagger (<= 4 s) + late tail (2 s) stays below the shortest time-out
+			}
 			// stale cache: the real desired capacity drifts after the provider's last refresh
 			stale := rapid.IntRange(0, 4).Draw(rt, "stale") == 0
 			if stale && c.asg.Desired > c.asg.Min {
@@ -331,12 +335,12 @@ type fleetFailure struct {
 	termNth   int // -1 none
 }
 
-func runFleetFailure(rt *rapid.T, col interface{ Eval(int) }, size int, cfg cloudprovider.NodeGroupConfig, zones string, split, page, stagger int, f fleetFailure) (es []sim.Entry, fleetE *sim.Entry, err error, exited bool) {
+func runFleetFailure(rt *rapid.T, col interface{ Eval(int) }, size int, cfg cloudprovider.NodeGroupConfig, zones string, split, page, stagger int, f fleetFailure, errCode string, lateTail int) (es []sim.Entry, fleetE *sim.Entry, err error, exited bool) {
 	c, herr := newAWSCase(0, 3, int64(size)+10, cfg, zones)
 	if herr != nil {
 		rt.Fatalf("harness: %v", herr)
 	}
-	c.a.Fleet = sim.FleetPlan{Split: split, PageSize: page, StaggerMod: stagger}
+	c.a.Fleet = sim.FleetPlan{Split: split, PageSize: page, StaggerMod: stagger, WithErrors: errCode != "", ErrCode: errCode, LateTail: lateTail}
 	var faults []sim.Fault
 	switch f.mode {
 	case "never-ready":
@@ -413,6 +417,13 @@ func judgeFleetFailure(size int, f fleetFailure, es []sim.Entry, fleetE *sim.Ent
 			return "C18:terminated-foreign-instance", "instance " + id + " was not acquired by this fleet request", false
 		}
 	}
+	if f.mode == "none" {
+		// nothing was made to fail (the answer may carry errors next to a complete set of instances)
+		if err == nil && len(submitted) > 0 {
+			return "C18:success-with-terminations", "IncreaseSize returned nil but submitted instances for termination", false
+		}
+		return "", "", false
+	}
 	if err == nil {
 		return "C18:failure-not-reported", "IncreaseSize returned nil although the fleet scale-up failed", false
 	}
@@ -439,7 +450,9 @@ func TestC18(t *testing.T) {
 			page := rapid.SampledFrom([]int{3, 50, 1000}).Draw(rt, "page")
 			stagger := rapid.SampledFrom([]int{0, 0, 2, 3, 5}).Draw(rt, "stagger") // instances become running at different polls
 			batches := (size + 19) / 20
-			var points []fleetFailure
+			errCode := rapid.SampledFrom(append([]string{"", "", ""}, sim.FleetErrorCodes...)).Draw(rt, "errCode")
+			lateTail := rapid.SampledFrom([]int{0, 0, 0, 1, 7, 50}).Draw(rt, "lateTail")
+			points := []fleetFailure{{"none", 0, -1}}
 			for _, tn := range []int{-1, 0, 1, 2} {
 				points = append(points, fleetFailure{"never-ready", rapid.IntRange(0, size-1).Draw(rt, "neverReady"), tn})
 				points = append(points, fleetFailure{"status-error", 0, tn})
@@ -451,7 +464,7 @@ func TestC18(t *testing.T) {
 				}
 			}
 			for _, f := range points {
-				es, fleetE, err, exited := runFleetFailure(rt, col, size, cfg, zones, split, page, stagger, f)
+				es, fleetE, err, exited := runFleetFailure(rt, col, size, cfg, zones, split, page, stagger, f, errCode, lateTail)
 				if exited {
 					fail(rt, dumpPath(), "C18:exit-after-one-failure", "size %d failure %+v: escalator exited after a single failed fleet scale-up", size, f)
 				}
@@ -641,8 +654,17 @@ func TestC19Direct(t *testing.T) {
 			var nodes []*v1.Node
 			var kinds []string
 			for i := 0; i < n; i++ {
-				kind := rapid.SampledFrom([]string{"member", "member", "member", "member", "foreign", "dup", "empty-id"}).Draw(rt, "kind")
+				kind := rapid.SampledFrom([]string{"member", "member", "member", "member", "foreign", "dup", "empty-id", "respelled"}).Draw(rt, "kind")
 				switch {
+				case kind == "respelled" && len(members) > 0: // a member's instance id under a provider id the group does not report
+					id := members[rapid.IntRange(0, len(members)-1).Draw(rt, "which")]
+					form := rapid.SampledFrom([]string{"aws:///eu-west-9z/%s", "aws:////%s", "aws:///%s/%s", "aws://us-east-1a/x/%s"}).Draw(rt, "spelling")
+					pid := fmt.Sprintf(form, id)
+					if strings.Count(form, "%s") == 2 {
+						pid = fmt.Sprintf(form, strings.ToUpper(c.a.Instances[id].AZ), id)
+					}
+					nodes = append(nodes, &v1.Node{ObjectMeta: metav1.ObjectMeta{Name: "respelled-" + id}, Spec: v1.NodeSpec{ProviderID: pid}})
+					kind = "foreign"
 				case kind == "member" && len(members) > 0:
 					id := members[rapid.IntRange(0, len(members)-1).Draw(rt, "which")]
 					nodes = append(nodes, nodeFor(c.a.Instances[id], "node-"+id))
@@ -694,8 +716,10 @@ func TestC19Direct(t *testing.T) {
 			// expected behaviour
 			refused := desired <= min || desired-int64(len(nodes)) < min
 			memberSet := map[string]bool{}
+			byProviderID := map[string]string{}
 			for _, id := range members {
 				memberSet[id] = true
+				byProviderID[c.a.Instances[id].ProviderID()] = id
 			}
 			var want []string
 			wantErr, wantTyped := "", false
@@ -706,10 +730,9 @@ func TestC19Direct(t *testing.T) {
 				realDesired := c.asg.Desired + int64(0)
 				_ = realDesired
 				for i, nd := range nodes {
-					id := ""
-					if parts := strings.Split(nd.Spec.ProviderID, "/"); len(parts) == 5 {
-						id = parts[4]
-					}
+					// membership is by the full provider id the group's instances report: another
+					// spelling of a member's instance id (other zone segment, no zone) is not a member
+					id := byProviderID[nd.Spec.ProviderID]
 					if !memberSet[id] {
 						wantErr, wantTyped = "not-in-group", true
 						break
